@@ -49,6 +49,12 @@ public:
 		return filterList.remove(filterHandle);
 	}
 
+	void swap(MixinHeterFilter & other) noexcept
+	{
+		super::swap(other);
+		filterList.swap(other.filterList);
+	}
+
 	template <typename ...Args>
 	bool mixinBeforeDispatch(Args && ...args) const {
 		if(! filterList.template forEachIf<void (Args...)>([&args...](const typename std::function<bool (Args...)> & callback) -> bool {
